@@ -8,9 +8,11 @@ import (
 	"fmt"
 	"strconv"
 	"strings"
+	"sync"
 	"testing"
 	"time"
 
+	"github.com/olric-data/olric/internal/verifhook"
 	"github.com/olric-data/olric/internal/zzverif/vcommon"
 	"pgregory.net/rapid"
 )
@@ -41,7 +43,7 @@ func genC09(t *rapid.T) *c09Case {
 		c.Opts.TTLms = rapid.SampledFrom([]int64{60, 150}).Draw(t, "ttlms")
 	}
 	n := rapid.IntRange(3, 12).Draw(t, "steps")
-	ops := []string{"putttl", "putttl", "putttl", "put", "getput", "incr", "expire", "get", "get", "nx", "xx", "waitafter", "waitafter", "evict"}
+	ops := []string{"putttl", "putttl", "putttl", "put", "getput", "incr", "expire", "get", "get", "nx", "xx", "waitafter", "waitafter", "evict", "incracross"}
 	for i := 0; i < n; i++ {
 		s := c09Step{Op: rapid.SampledFrom(ops).Draw(t, "op"), Path: rapid.IntRange(1, 6).Draw(t, "path"), Pick: rapid.IntRange(0, 2).Draw(t, "pick")}
 		switch s.Op {
@@ -222,6 +224,51 @@ func runC09(c *c09Case) (v *vcommon.Violation, nontrivial, inconclusive bool) {
 			} else {
 				st = c09State{present: true, val: fromNone}
 				setDefaultTTL(r)
+			}
+		case "incracross":
+			// An Incr that reads the key while it is live and writes it after the deadline has passed (the owner is
+			// held between its read and its write, hook atomic.afterRead): Incr keeps the expiry, so what it stores
+			// is past its deadline at once and must not be observable.
+			t0 := time.Now().UnixNano()
+			if !st.present || !st.hasDL || st.lo-t0 < 15*int64(time.Millisecond) || st.hi-t0 > 450*int64(time.Millisecond) {
+				continue
+			}
+			owner := cl.ownerOf(name, key)
+			until := st.hi + 3*c09Guard
+			var once sync.Once
+			verifhook.Set("atomic.afterRead", func(args ...string) {
+				if len(args) >= 2 && args[0] == owner.name && args[1] == key {
+					once.Do(func() {
+						if d := until - time.Now().UnixNano(); d > 0 {
+							time.Sleep(time.Duration(d))
+						}
+					})
+				}
+			})
+			r = pc.incr(ctx, key, 7, false)
+			verifhook.Set("atomic.afterRead", nil)
+			note(-1)
+			if r.Err != "" {
+				if strings.HasPrefix(r.Err, "other:") {
+					return nil, nontrivial, true
+				}
+				return bad("incr-error", "Incr failed: %s", r.Err), nontrivial, false
+			}
+			if r.Int != st.val+7 && r.Int != 7 {
+				return bad("incr-base", "Incr(7) returned %d, want %d or 7", r.Int, st.val+7), nontrivial, false
+			}
+			if r.Int == 7 {
+				// it found the key already gone (slow start): a fresh counter
+				st = c09State{present: true, val: 7}
+				setDefaultTTL(r)
+				break
+			}
+			nontrivial = true
+			// the deadline is the old one (plus the few microseconds Incr needs to re-compute it): it has passed
+			st.val = r.Int
+			st.hi += int64(time.Millisecond)
+			if g := (&pathClient{cl: cl, dmap: name, path: pOwnerEmb}).get(ctx, key); g.Err != "notfound" && time.Now().UnixNano() > st.hi+c09Guard {
+				return bad("expired-visible:after-incr", "an Incr read the key before its deadline (window [%d,%d]) and stored the new value after it; Incr keeps the expiry, yet Get returns %s at %d", st.lo, st.hi, g.String(), time.Now().UnixNano()), nontrivial, false
 			}
 		case "expire":
 			r = pc.expire(ctx, key, s.Ms, s.UseP)
